@@ -110,9 +110,9 @@ def scale_store_rules(prog, res: Result, cr: CaseRunner):
     n = 0
     for state in ("_equiv", "_definition", "_qty_cls"):
         n += len(check_ownership(res, "R01.3b", writes, state, owners, cg))
-    if n < 5:
+    if n < 3:
         from ..loader import AnalysisError
-        raise AnalysisError(f"R01.3b: only {n} stores of unit fields found (5 confirmed on the pinned tree)")
+        raise AnalysisError(f"R01.3b: only {n} stores of unit fields found (at least 3 expected: scale, definition, type)")
 
 
 def run(prog, tier) -> Result:
